@@ -286,7 +286,11 @@ class Family:
 
     def report(self, what_oracle, rule, trusted_extra=(), assumptions=(), extra_cov=None, nontrivial=None):
         ctx, thm, pid = self.ctx, self.thm, self.ctx.pid
-        for name, sig, what, data in self.bad[:30]:
+        seen = set()
+        for name, sig, what, data in self.bad:       # one report per signature (known findings must not crowd out new ones)
+            if sig in seen or len(seen) >= 60:
+                continue
+            seen.add(sig)
             ctx.violation(sig, f"{name}: {what_oracle}: {trunc(what, 300)}", dict(data, unit=name))
         if not ctx.violations:
             bad_c = {k: v for k, v in (self.cres or {}).items() if v and k in ("Prim",)}
